@@ -160,6 +160,8 @@ pub enum Member {
         value: Option<String>,
         doc: Option<String>,
     },
+    /// tokens that are no member: the parser recovers ("Invalid ... element") and keeps the tree
+    Junk(String),
 }
 
 #[derive(Clone, Copy, Debug, PartialEq, Eq, PartialOrd, Ord, Hash)]
@@ -346,6 +348,9 @@ impl Doc {
                     }
                     s.push(';');
                 }
+                Member::Junk(j) => {
+                    s.push_str(j);
+                }
                 Member::EnumElem { name, value, doc } => {
                     render_doc_comment(doc, &mut s, msep);
                     s.push_str(name);
@@ -471,7 +476,7 @@ impl Doc {
                         });
                     }
                 }
-                Member::EnumElem { .. } => {}
+                Member::EnumElem { .. } | Member::Junk(_) => {}
             }
         }
         // Layout last: keeping one-line layouts matters for ordering violations
@@ -529,6 +534,8 @@ pub struct GenKnobs {
     pub p_doc: u32,
     /// share of documents with very many imports / forward declarations / tie-producing members
     pub p_heavy: u32,
+    /// per member slot: chance of an extra junk member (recovered syntax error)
+    pub p_junk: u32,
 }
 
 impl GenKnobs {
@@ -547,12 +554,13 @@ impl GenKnobs {
             p_annot: *rng.pick(&[0, 15, 40]),
             p_doc: *rng.pick(&[0, 15, 40]),
             p_heavy: *rng.pick(&[0, 0, 8, 30]),
+            p_junk: *rng.pick(&[0, 0, 12, 35]),
         }
     }
 
     pub fn describe(&self) -> String {
         format!(
-            "hol={} mol={} imp<={} fwd<={} mem<={} amb={} unk={} blt={} rep={} cont={} ann={} doc={} heavy={}",
+            "hol={} mol={} imp<={} fwd<={} mem<={} amb={} unk={} blt={} rep={} cont={} ann={} doc={} heavy={} junk={}",
             self.p_header_one_line,
             self.p_members_one_line,
             self.max_imports,
@@ -565,7 +573,8 @@ impl GenKnobs {
             self.p_container,
             self.p_annot,
             self.p_doc,
-            self.p_heavy
+            self.p_heavy,
+            self.p_junk
         )
     }
 }
@@ -757,6 +766,13 @@ pub fn gen_members(
     let mut members = Vec::new();
     let with_codes = rng.below(4); // 0: none, 1: all, 2: mixed, 3: none
     for mi in 0..n {
+        if rng.pct(k.p_junk) {
+            members.push(Member::Junk(match kind {
+                Kind::Interface => rng.pick(&["int int;", "void (;", "= 3;", "void f(int);;", "oneway;", "String[] [] x();"]).to_string(),
+                Kind::Parcelable => rng.pick(&["int int;", "= 3;", "String;", "int x = ;", "[] y;"]).to_string(),
+                Kind::Enum => rng.pick(&["= 3,", "1,", "A B,", "int,"]).to_string(),
+            }));
+        }
         match kind {
             Kind::Interface => {
                 if rng.pct(12) {
